@@ -29,7 +29,7 @@ TReadEof == IsEv("read_eof") /\ Eof
 TPending == IsEv("pending") /\ pc = "read" /\ UNCHANGED vars
 TCancel == IsEv("cancel") /\ Cancel /\ Same(Rec[l])
 ResultClass(r) == CASE r[1] = "ok" -> "okframe" [] r[1] = "bad" -> "decode_err" [] r[1] = "garbage" -> "decode_err"
-                    [] r[1] = "eof" -> "eof" [] r[1] = "overflow" -> "overflow"
+                    [] r[1] = "eof" -> "eof" [] r[1] = "blank" -> "eof" [] r[1] = "overflow" -> "overflow"
 TRecv == /\ IsEv("recv")
          /\ (Parse \/ Fail)
          /\ Same(Rec[l])
